@@ -86,6 +86,11 @@ def corrupt_intact_refused(run):
     return None
 
 
+def _scratch():
+    """scratch directory of the harness: <work>/C19-tmp (work differs when ZV_REPO selects another tree)"""
+    return os.path.join(vlib.WORK, "C19-tmp")
+
+
 def models(ctx):
     q = "" if ctx.thorough else "_q"
     sfx = "3 syncs" if ctx.thorough else "2 syncs"
@@ -107,13 +112,13 @@ def models(ctx):
 
 
 def pipeline(ctx, subject=None, tag=""):
-    d = ctx.harness(BIN, "drive", "drive" + tag, subject=subject)
+    d = ctx.harness(BIN, "drive", "drive" + tag, subject=subject, extra={"scratch": _scratch()})
     shapes = os.path.join(d["_out"], "shapes.ndjson")
     faults, n = ctx.tlc_generate("MC_DurableFileGen", tag="FAULTS", env={"SHAPES": shapes}, workers=1, timeout=900,
                                  outfile=os.path.join(ctx.work, "faults%s.ndjson" % tag))
     if n == 0:
         raise vlib.ToolError("MC_DurableFileGen produced no fault descriptors")
-    s = ctx.harness(BIN, "images", "img" + tag, extra={"in": faults, "runs": os.path.join(d["_out"], "runs.ndjson")},
+    s = ctx.harness(BIN, "images", "img" + tag, extra={"in": faults, "runs": os.path.join(d["_out"], "runs.ndjson"), "scratch": _scratch()},
                     subject=subject, timeout=3000)
     return d, s, n
 
@@ -132,7 +137,7 @@ def run(ctx):
         ctx.selftest_corrupt(TRACE, ok_file, corrupt_extent, "extent of a reopen moved beyond the end of the image")
         ctx.selftest_corrupt(TRACE, ok_file, corrupt_intact_refused, "undamaged sync image refused")
     finally:
-        vlib.sh([os.path.join(vlib.TARGET, "release", BIN), "--mode", "clean"])
+        vlib.sh([os.path.join(vlib.TARGET, "release", BIN), "--mode", "clean", "--scratch", _scratch()])
     cov = ctx.cov
     cov["evaluations"] = s.get("images", 0)
     cov["distinct_nontrivial"] = s.get("distinct_nontrivial", 0)
@@ -183,7 +188,7 @@ def replay(ctx, path):
         files = sorted(glob.glob(os.path.join(s["_out"], "c19-*.ndjson")))
         ctx.validate(TRACE, files, what="replay of " + os.path.basename(path), timeout=600)
     finally:
-        vlib.sh([os.path.join(vlib.TARGET, "release", BIN), "--mode", "clean"])
+        vlib.sh([os.path.join(vlib.TARGET, "release", BIN), "--mode", "clean", "--scratch", _scratch()])
     ctx.cov["evaluations"] = s.get("images", 0)
     ctx.cov["distinct_nontrivial"] = s.get("distinct_nontrivial", 0)
     ctx.cov["rule"] = "replay of one subject (same seed and tier): all its fault images"
